@@ -292,6 +292,34 @@ theorem answer_extmap_ok (c : Cfg) (t : TrxView) (remote : List Media) (hasLocal
       simp [attr] at hk
     · cases h
 
+/-- **answer_extmap_ids_offered** — in terms of the property's `extIds`: every extension id of an
+answer section is an extension id of the remote section `find(|s| s.mid == mid)` selects. All inputs. -/
+theorem answer_extmap_ids_offered (c : Cfg) (t : TrxView) (remote : List Media) (hasLocal : Bool) (role : Option Bool)
+    (mid : Str) (mux : Bool) :
+    ∀ i ∈ extIds (answerSection c t remote hasLocal role mid mux),
+      ∃ r, remote.find? (fun s => s.mid = mid) = some r ∧ i ∈ extIds r := by
+  intro i hi
+  unfold extIds at hi
+  obtain ⟨v, hv, hhead⟩ := List.mem_filterMap.mp hi
+  obtain ⟨a, ha, hk, hval⟩ := (mem_attrVals _ "extmap" v).mp hv
+  obtain ⟨r, id, uri, v', hr, hform, hmem, hid⟩ := answer_extmap_ok c t remote hasLocal role mid mux a ha hk
+  have hidtok : IsTok id := by
+    apply splitWs_tokens v'
+    cases hs : splitWs v' with
+    | nil => simp [hs] at hid
+    | cons x xs => simp only [hs, List.head?_cons, Option.some.injEq] at hid; subst hid; simp
+  have hv_eq : v = id ++ sp ++ uri := by
+    rw [hform] at hval
+    simp only [extAttr, attr, Option.some.injEq] at hval
+    exact hval.symm
+  have : i = id := by
+    rw [hv_eq, extAttr_id id uri hidtok] at hhead
+    injection hhead with e; exact e.symm
+  subst this
+  refine ⟨r, hr, ?_⟩
+  unfold extIds
+  exact List.mem_filterMap.mpr ⟨v', (mem_attrVals _ "extmap" v').mpr ⟨_, hmem, rfl, rfl⟩, hid⟩
+
 /-! ### witnesses: the full statement is false -/
 
 def cfgDefault : Cfg := { mode := .webrtc, legacySip := false, muxRequire := true, audio := [], video := [], sctpPort := 5000 }
